@@ -135,10 +135,10 @@ def run(spec, ctx):
     rnd = 0
     while any(pos[c] < len(junk[c]) for c in junk):
         rnd += 1
-        good = dirs.gen_dir_model(rng, u, rng.choice([1, 2, 3, 5, 8]), reg=reg)
+        good = dirs.gen_dir_model(rng, u, rng.choice([0, 1, 1, 2, 3, 5, 8]), reg=reg)
         clean = dirs.PelDir(os.path.join(root, "clean"))
         clean.extend(good)
-        target = rng.choice(good)
+        target = rng.choice(good) if good else dirs.gen_dir_model(rng, u, 1, reg=reg)[0]
         for c, modes in classes:
             batch = junk[c][pos[c]:pos[c] + 24]
             pos[c] += 24
